@@ -44,7 +44,8 @@ const BoundContract = `access(all) contract C {
 // TestInterpretStorageReferenceBoundFunction): a function bound through a storage reference
 // runs on the value stored at the path when it is CALLED, provided that value still has the
 // concrete type the path held when the function was BOUND; otherwise (other type, nothing
-// stored) the call fails with a DereferenceError. A direct call through the reference only
+// stored) the call fails with a DereferenceError (ReferencedValueChangedError when the path is
+// empty - observed on both engines of the unchanged tree). A direct call through the reference only
 // needs the borrow type to match. A function bound through an ephemeral reference fails with
 // an invalidated-reference error iff the resource moved in between.
 func GenBoundCase(s Src) *RefCase {
@@ -57,6 +58,7 @@ func GenBoundCase(s Src) *RefCase {
 	if res {
 		concrete, other, iface, anyT, mk, mkOther, word, wordOther = "C.Foo", "C.Bar", "{C.I}", "AnyResource", "C.mkFoo", "C.mkBar", "foo", "bar"
 	}
+	_ = other
 	mv := ""
 	if res {
 		mv = "<- "
@@ -191,6 +193,10 @@ func GenBoundCase(s Src) *RefCase {
 		case "remove":
 			take()
 			c.Invalid, c.FailKind = true, "DereferenceError"
+			if bound {
+				// (both engines report the emptied path of a bound function's receiver as "referenced value has been changed")
+				c.FailKind = "ReferencedValueChangedError"
+			}
 		case "load-and-restore":
 			take()
 			emit("a.storage.save(%sold, to: /storage/x)", mv)
